@@ -14,6 +14,8 @@
 
 package mapping
 
+import "fmt"
+
 type customAnalysis struct {
 	CharFilters     map[string]map[string]interface{} `json:"char_filters,omitempty"`
 	Tokenizers      map[string]map[string]interface{} `json:"tokenizers,omitempty"`
@@ -46,6 +48,14 @@ func (c *customAnalysis) registerAll(i *IndexMappingImpl) error {
 			errs = []error{}
 			for name := range todo {
 				config := c.Tokenizers[name]
+				// a tokenizer built on another custom tokenizer has to wait
+				// for it, or it picks up a built-in tokenizer of that name
+				if dep, ok := config["tokenizer"].(string); ok && dep != name {
+					if _, pending := todo[dep]; pending {
+						errs = append(errs, fmt.Errorf("tokenizer '%s' requires tokenizer '%s'", name, dep))
+						continue
+					}
+				}
 				_, err := i.cache.DefineTokenizer(name, config)
 				if err != nil {
 					errs = append(errs, err)
